@@ -31,7 +31,7 @@ func TestVerifC07(t *testing.T) {
 		ID: "C07", Level: "fault_enumeration",
 		Rule:        "8 base sessions x {Server, RequestServer} x allocator {off,on} x transport {close-both, keep-input-after-Close}; mutations of request j: stream EOF at a byte offset inside it (quick: first/last 2 offsets + seeded 15%; thorough: every offset), well-framed truncation of the body at every offset the reference decoder rejects, every 4-byte window that is a string-length field replaced by {n+1, 2^20, 2^31-1, 2^32-1}, zero-length and oversized frames, every unknown/response type byte (one request per session), plus 'ambiguous' mutations (garbage inside the frame, random byte flips) judged by the robustness oracles only. A class is (session, config, request index, mutation kind).",
 		Assumptions: []string{"a mutation is 'definitely malformed' only if the independent reference decoder rejects it (or it is a framing violation / non-request type)", "sessions are sequential (determinate), so the two runs are comparable", "race detector on"},
-		Units:       func(tier vfTier, seed uint64) int { return 8*4*2 + 16 },
+		Units:       func(tier vfTier, seed uint64) int { return 8*4*2 + 16 + 4 },
 		Shards: func(tier vfTier) int {
 			if tier == vfThorough {
 				return 16
@@ -431,7 +431,89 @@ func c07Burst(u *vfUnit, idx int) {
 	}
 }
 
+// c07InitVariants: the first packet of a session is input like any other. INIT packets announcing any version
+// (with and without extension data, once or twice), followed by ordinary requests and the end of the stream:
+// Serve returns, nothing leaks, and what was answered is a prefix of [VERSION, the answers to the requests].
+func c07InitVariants(u *vfUnit, idx int) {
+	e := &c07Env{kind: vfKind(idx % 2), alloc: (idx/2)%2 == 1}
+	if e.kind == vfOS {
+		e.dir = filepath.Join(u.TempDir(), "srv")
+	}
+	versions := []uint32{0, 1, 2, 3, 4, 5, 6, 1 << 31, 1<<32 - 1}
+	for vi, v := range versions {
+		for variant := 0; variant < 3; variant++ {
+			label := fmt.Sprintf("init/%v/alloc=%v/version=%d/variant=%d", e.kind, e.alloc, v, variant)
+			if !u.Case(vi*3+variant, fmt.Sprintf("%s:init-version", e.kind), "%s", label) {
+				continue
+			}
+			u.Eval(label)
+			u.Count("mutated_streams", 1)
+			u.SetAdd("mutation_kinds", "init-version")
+			e.reset()
+			base := vfGoBaseline()
+			if e.kind == vfOS {
+				rtdebug.SetGCPercent(-1)
+			}
+			cfg := vfSrvCfg{Kind: e.kind, Alloc: e.alloc}
+			if e.kind == vfRS {
+				cfg.H = e.store.Handlers(vfHandlerOpt{OpenFile: true, CmdAll: true, ListAll: true})
+			}
+			rs, err := vfRawConnect(cfg, vfPipeOpts{}, false)
+			if err != nil {
+				u.Inconclusive("connect: %v", err)
+				return
+			}
+			init := vfPkt{Type: rfInit, Version: v}
+			if variant == 1 {
+				init.Exts = [][2]string{{"vendor@example.com", "1"}}
+			}
+			stream := init.Frame()
+			if variant == 2 {
+				stream = append(stream, init.Frame()...)
+			}
+			stream = append(stream, vfPkt{Type: rfStat, ID: 7, Path: e.p("a")}.Frame()...)
+			stream = append(stream, vfPkt{Type: rfMkdir, ID: 8, Path: e.p("made-after-init")}.Frame()...)
+			want := 3
+			if variant == 2 {
+				want = 4
+			}
+			rs.R.Send(stream)
+			w := map[string]any{"config": label}
+			// the answers (if the server chooses to go on) arrive before the stream is ended
+			if wv, dump := rs.R.WaitCount(want, 120*time.Second); wv == vfStuck {
+				u.Violation("serve-wedged:"+e.kind.String()+":init-version", fmt.Sprintf("%s: %d of %d answers arrived and the server neither goes on nor ends the session\n%s", label, rs.R.Count(), want, vfTrim(dump, 2000)), w)
+				rs.End(60 * time.Second)
+				continue
+			}
+			if msg := rs.End(120 * time.Second); msg != "" {
+				u.Violation("serve-does-not-return:"+e.kind.String()+":init-version", label+": "+msg, w)
+				continue
+			}
+			c07After(u, e, base, label, w)
+			for i, body := range rs.R.All() {
+				p, perr := vfParse(body, true)
+				ok := perr == nil
+				switch {
+				case !ok:
+				case i == 0 || (variant == 2 && i == 1):
+					ok = p.Type == rfVersion && p.Version == 3
+				default:
+					ok = (p.ID == 7 && p.Type == rfAttrs) || (p.ID == 8 && p.Type == rfStatus)
+				}
+				if !ok {
+					u.Violation("reply-beyond-prefix:"+e.kind.String()+":init-version", fmt.Sprintf("%s: answer %d is %v (%v)", label, i, p, perr), w)
+					break
+				}
+			}
+		}
+	}
+}
+
 func c07Run(u *vfUnit) {
+	if u.Index >= 80 {
+		c07InitVariants(u, u.Index-80)
+		return
+	}
 	if u.Index >= 64 {
 		c07Burst(u, u.Index-64)
 		return
